@@ -187,24 +187,29 @@ pub fn core_libfunc_cost(
                     // value.
                     let extra_below = if libfunc.to_range.lower.is_zero() { 0 } else { 1 };
                     let extra_above = if libfunc.to_range.upper.is_zero() { 0 } else { 1 };
+                    // Asserting that a value is below `2**128` is a plain range check of the value,
+                    // without the additional calculation.
+                    let rc_bound = BigInt::from(u128::MAX) + 1;
+                    let lt_lower = if libfunc.to_range.lower == rc_bound { 0 } else { 1 };
+                    let lt_upper = if libfunc.to_range.upper == rc_bound { 0 } else { 1 };
                     match libfunc.cast_type() {
                         CastType { overflow_above: false, overflow_below: false } => {
                             vec![ConstCost::steps(0).into(), ConstCost::steps(0).into()]
                         }
                         CastType { overflow_above: true, overflow_below: false } => vec![
-                            (ConstCost::steps(3) + ConstCost::range_checks(1)).into(),
+                            (ConstCost::steps(2 + lt_upper) + ConstCost::range_checks(1)).into(),
                             (ConstCost::steps(3 + extra_above) + ConstCost::range_checks(1)).into(),
                         ],
                         CastType { overflow_above: false, overflow_below: true } => {
                             vec![
                                 (ConstCost::steps(2 + extra_below) + ConstCost::range_checks(1))
                                     .into(),
-                                (ConstCost::steps(4) + ConstCost::range_checks(1)).into(),
+                                (ConstCost::steps(3 + lt_lower) + ConstCost::range_checks(1)).into(),
                             ]
                         }
                         CastType { overflow_above: true, overflow_below: true } => {
                             vec![
-                                (ConstCost::steps(4 + extra_below) + ConstCost::range_checks(2))
+                                (ConstCost::steps(3 + extra_below + lt_upper) + ConstCost::range_checks(2))
                                     .into(),
                                 (ConstCost::steps(5) + ConstCost::range_checks(1)).into(),
                             ]
